@@ -291,10 +291,10 @@ def run_case(ctx, name, params):
         from artap.operators import TournamentSelector
 
         def mk_cd(orig):
-            def crowding_distance(front):
+            def crowding_distance(front, *a, **kw):
                 members = list(front)
                 snap = [list(i.costs_signed) for i in members]
-                res = orig(front)
+                res = orig(front, *a, **kw)
                 if len({id(i.features) for i in members}) < len(members):
                     # PSOGA lets two particles share one features dict: no per-individual value exists
                     ctx.count("insitu_crowding_calls_shared_features_skipped")
@@ -305,20 +305,20 @@ def run_case(ctx, name, params):
             return crowding_distance
 
         def mk_tr(orig):
-            def nondominated_truncate(population, size):
+            def nondominated_truncate(population, size, *a, **kw):
                 pop = list(population)
                 snap = snapshot(pop)
-                res = orig(population, size)
+                res = orig(population, size, *a, **kw)
                 judge_truncate(ctx, pop, snap, size, res, "insitu")
                 ctx.count("insitu_truncate_calls")
                 return res
             return nondominated_truncate
 
         def mk_sel(orig):
-            def select(self, individuals):
+            def select(self, individuals, *a, **kw):
                 rr = random.random.__self__
                 before = getattr(rr, "samples_drawn", 0)
-                res = orig(self, individuals)
+                res = orig(self, individuals, *a, **kw)
                 drawn = rr.last_sample if getattr(rr, "samples_drawn", 0) == before + 1 else None
                 judge_select(ctx, list(individuals), res, drawn, "insitu")
                 ctx.count("insitu_select_calls")
